@@ -6,7 +6,8 @@ accumulated balance_scaling / balance_translation, apply_balance and the pre-bal
 compared *exactly* with the Lean model; apply_balance / the objective of the three plain classes likewise.
 (b) real Powell fits on the implementation (oracle): exact diagonal / linear / affine ground truths are reproduced within
 tolerance, the objective never increases relative to the start balance, and with the real stage fits recorded the
-accumulated balance equals the sequential application of the recorded stage balances.
+accumulated balance equals the sequential application of the recorded stage balances - both with one common destination and
+with a separate exact, non-trivial target per stage (so that no stage fit degenerates to the identity).
 """
 from __future__ import annotations
 
@@ -304,6 +305,60 @@ def check_staged_case(d, case, cov=None):
     return bad
 
 
+def check_own_targets_case(d, case, cov=None):
+    """AdaptiveBalance with real stage fits where EVERY stage has its own target: the destination of stage k is an exact
+    diagonal / linear / affine image (class = the stage's mode, non-trivial, near the identity) of the swatches as balanced
+    by everything before it. So every stage fits a non-identity balance, and the accumulated balance must equal the recorded
+    stage balances applied one after the other (both sides use the same fitted matrices: tolerance 1e-6)."""
+    modes = case["modes"]
+    src = np.array(case["src"], float)
+    truths = [(np.array(A, float), np.array(b, float)) for A, b in case["truths"]]
+    tag = ">".join(modes)
+    bad, log = [], []
+    bal = call(d.AdaptiveBalance)
+    if isinstance(bal, Raised):
+        return [("C12:AdaptiveBalance():raises", f"{bal}")]
+    seq = src.copy()
+    with Record(d, log):
+        for k, m in enumerate(modes):
+            cur = call(bal.apply_balance, src)
+            if isinstance(cur, Raised):
+                return bad + [("C12:AdaptiveBalance.apply_balance:raises", f"{cur}")]
+            A, b = truths[k]
+            dst = cur @ A + b
+            r = call(bal.find_balance, src, dst, mode=m)
+            if isinstance(r, Raised):
+                return bad + [(f"C12:AdaptiveBalance.find_balance({m}):raises", f"{r}")]
+            if len(log) != k + 1 or log[k][0] != m:
+                return bad + [("C12:AdaptiveBalance.find_balance:stage-class", f"stage {k} ({m}) was not fitted by the {CLS[m]} class")]
+            _, As, bs = log[k]
+            step = cur @ As + (bs if m == "affine" else 0.0)  # recorded stage balance applied to the previous output
+            seq = seq @ As + (bs if m == "affine" else 0.0)
+            acc = call(bal.apply_balance, src)
+            if isinstance(acc, Raised):
+                return bad + [("C12:AdaptiveBalance.apply_balance:raises", f"{acc}")]
+            dev = max(float(np.abs(acc - step).max()), float(np.abs(acc - seq).max()))
+            nontrivial = float(np.abs(As - np.eye(3)).max())
+            if cov is not None:
+                cov["own_target_dev_max"] = max(cov.get("own_target_dev_max", 0.0), dev)
+                cov["own_target_stage_nontriviality_min"] = min(cov.get("own_target_stage_nontriviality_min", 1.0), nontrivial)
+            if dev > 1e-6:
+                prev = ">".join(modes[:k]) or "start"
+                bad.append((f"C12:AdaptiveBalance:accumulated≠sequential(own-targets,stage={m},after={prev})",
+                            f"stages {tag}, each with its own exact target: after stage {k} ({m}) max |apply_balance(src) − recorded stage "
+                            f"balances applied one after the other| = {dev:.3g} (fitted stage matrix differs from I by {nontrivial:.3g})"))
+                return bad
+            err = float(np.abs(acc - dst).max())
+            if err > TOL_FIT:
+                call(bal.find_balance, src, dst, mode=m)  # one re-fit (restarts from the accumulated balance)
+                err = float(np.abs(bal.apply_balance(src) - dst).max())
+                if err > TOL_FIT:
+                    bad.append((f"C12:AdaptiveBalance:own-target-not-reproduced(stage={m},after={'>'.join(modes[:k]) or 'start'})",
+                                f"stages {tag}: stage {k} target is an exact {m} image of the previous output but max |apply_balance(src) − dst| = {err:.3g}"))
+                return bad
+    return bad
+
+
 def report(ctx, bad, case):
     for sig, what in bad:
         ctx.fail(sig, what, {"case": case, "observed": what})
@@ -330,6 +385,29 @@ def oracle(ctx, d):
             case = dict(modes=modes, truth=truth, src=src.tolist(), A=A.tolist(), b=b.tolist())
             ctx.count(("staged", tuple(modes), truth))
             report(ctx, check_staged_case(d, case, ctx.cov), case)
+    # every stage with its own exact target: every ordered pair and triple of modes (all of them in both tiers)
+    allseqs = [list(p) for n in (2, 3) for p in itertools.product(MODES, repeat=n)]
+    for j, modes in enumerate(allseqs):
+        for rep in range(ctx.pick(1, 4)):
+            src = rand_swatches(rng, flat=bool((j + rep) % 2))
+            truths = []
+            for m in modes:
+                A, b = rand_truth(rng, m, amp=0.2)
+                if m == "diagonal":
+                    # clearly non-uniform rescaling
+                    A = np.diag([1 + sgn * rng.uniform(0.08, 0.2) for sgn in rng.sample([1, -1, 1], 3)])
+                if m == "affine":
+                    b = np.array([sgn * rng.uniform(0.03, 0.08) for sgn in (1, -1, 1)])
+                truths.append((A.tolist(), b.tolist()))
+            case = dict(own_targets=True, modes=modes, src=src.tolist(), truths=truths)
+            ctx.count(("own-targets", tuple(modes), rep))
+            report(ctx, check_own_targets_case(d, case, ctx.cov), case)
+
+
+def _dispatch(d, case):
+    if case.get("own_targets"):
+        return check_own_targets_case(d, case)
+    return check_staged_case(d, case) if "modes" in case else check_fit_case(d, case)
 
 
 def replay(data):
@@ -339,7 +417,7 @@ def replay(data):
     if case is None:
         print(json.dumps(data, indent=1)[:4000])
         return 0
-    bad = check_staged_case(d, case) if "modes" in case else check_fit_case(d, case)
+    bad = _dispatch(d, case)
     print("case:", json.dumps({k: v for k, v in case.items() if k != "src"}), "swatches:", np.array(case["src"]).shape)
     for sig, what in bad:
         print("FAILS:", sig, "--", what)
@@ -356,7 +434,7 @@ def run(ctx):
     for f in sorted((pathlib.Path(__file__).resolve().parents[2] / "corpus" / "C12").glob("*.json")):
         case = json.loads(f.read_text()).get("replay", {}).get("case")
         if case:
-            report(ctx, check_staged_case(d, case) if "modes" in case else check_fit_case(d, case), case)
+            report(ctx, _dispatch(d, case), case)
     ctx.prove("C12")
     corr_composition(ctx, d)
     corr_apply_and_objective(ctx, d)
